@@ -262,7 +262,7 @@ var c11Embeddings = []c11Embedding{
 func TestVerifC11(t *testing.T) {
 	r := vNewReport("C11")
 	defer r.Write(t)
-	r.Extra["rule"] = "20 documented untrusted paths: full spelling product of every segment in the bare embedding; proper prefixes, trusted siblings per segment, one-segment extensions, object filter in place of each named segment; canonical + adversarial spelling of every path in 23 embeddings (operators, parentheses, call arguments, index positions, 2 and 3 chains, sanitising calls nested both ways), pairs of different paths in the multi-chain embeddings; script positions (run:, github-script script:) and non-script positions (env:, other with: input, if:, name:) through Linter.Lint. oracle = stateless reference matcher on segment lists. class = (family, number of reports expected); non-trivial = something must be reported"
+	r.Extra["rule"] = "20 documented untrusted paths: full spelling product of every segment in the bare embedding; proper prefixes, trusted siblings per segment, one-segment extensions, object filter in place of each named segment; canonical + adversarial spelling of every path in 23 embeddings (operators, parentheses, call arguments, index positions, 2 and 3 chains, sanitising calls nested both ways), pairs of different paths in the multi-chain embeddings; every path (3 spellings) next to 10 partner chains that leave the matcher in different states, both orders, 3 templates; script positions (run:, github-script script:) and non-script positions (env:, other with: input, if:, name:) through Linter.Lint. oracle = stateless reference matcher on segment lists. class = (family, number of reports expected); non-trivial = something must be reported"
 	r.Extra["assumptions"] = []string{"a chain is a variable followed by accessors; chains interrupted by operators are not claimed (DESIGN section 7)", "a non-string index anywhere after an object filter (it selects an element of the filtered array) is not generated"}
 	if raw := vReplayInput(); raw != nil {
 		var rp struct {
@@ -373,6 +373,51 @@ func TestVerifC11(t *testing.T) {
 						}
 					}
 					c11CheckExpr(r, em.tmpl(texts), want, "embed:"+em.name)
+				}
+			}
+		}
+	}
+	// (3b) stateful-matcher stress: every path (three spellings of its * segments) next to partner
+	// chains that leave the matcher in different states (unmatched array filter, unmatched object
+	// filter, filter on another context, prefix, numeric index, trusted leaf), in both orders
+	partners := []*c11Chain{
+		other, trusted,
+		{root: "github", accs: []c11Acc{{'p', "event"}, {'p', "commits"}, {'s', ""}, {'p', "id"}}},
+		{root: "github", accs: []c11Acc{{'p', "event"}, {'s', ""}, {'p', "id"}}},
+		{root: "github", accs: []c11Acc{{'p', "event"}, {'p', "pages"}, {'s', ""}}},
+		{root: "matrix", accs: []c11Acc{{'s', ""}}},
+		{root: "github", accs: []c11Acc{{'p', "event"}, {'p', "commits"}, {'n', "0"}, {'p', "id"}}},
+		{root: "github", accs: []c11Acc{{'p', "event"}, {'p', "pull_request"}, {'p', "head"}}},
+		{root: "env", accs: []c11Acc{{'p', "foo"}}},
+		{root: "github", accs: []c11Acc{{'p', "event"}, {'p', "commits"}, {'s', ""}, {'p', "message"}}},
+	}
+	for _, leaf := range c11Leaves {
+		for mode := 0; mode < 3; mode++ {
+			e0 := c11Canonical(leaf, mode == 1)
+			if mode == 2 {
+				e0 = c11Canonical(leaf, false)
+				for i := range e0.accs {
+					if e0.accs[i].kind == 's' {
+						e0.accs[i] = c11Acc{'n', "0"}
+					}
+				}
+			}
+			for _, pt := range partners {
+				for _, tmpl := range []func(a, b string) string{
+					func(a, b string) string { return a + " == " + b },
+					func(a, b string) string { return "format('{0} {1}', " + a + ", " + b + ")" },
+					func(a, b string) string { return "toJSON(" + a + ") && " + b },
+				} {
+					for order := 0; order < 2; order++ {
+						if !mine() {
+							continue
+						}
+						a, b := pt, e0
+						if order == 1 {
+							a, b = e0, pt
+						}
+						c11CheckExpr(r, tmpl(a.text(), b.text()), [][]string{c11Match(a), c11Match(b)}, "partner")
+					}
 				}
 			}
 		}
